@@ -157,6 +157,11 @@ fn run_engine(ename: &str, tier: &str, seed: u64, first: u64, count: u64, worker
                 harness_error(&format!("in-run determinism guard: cases {:?} gave different digests on re-execution", nd));
             }
         }
+        if let Some(m) = child_json["counters"].as_object() {
+            if let Some((k, v)) = m.iter().find(|(k, _)| k.starts_with("HARNESS.")) {
+                harness_error(&format!("harness self-check failed: {} = {}", k, v));
+            }
+        }
         violations = serde_json::from_value(child_json["violations"].clone()).unwrap_or_default();
     } else {
         // crash or hang: attribute through the journal, re-run each in-flight case alone
